@@ -48,6 +48,9 @@ def configs(tier):
         out.append({'name': 'bin-%s-by-%s' % ('x'.join(map(str, shp)), 'x'.join(map(str, fac))), 'kind': 'bin', 'shape': list(shp),
                     'factor': list(fac)})
     out.append({'name': 'bin-scalar-factor', 'kind': 'bin', 'shape': [4, 4], 'factor': 2})
+    # integer frames (what expose returns): block sums exceed the input's container
+    for dt, hi in (('uint8', 255), ('uint16', 65535)) if q else (('uint8', 255), ('uint16', 65535), ('int16', 32767), ('uint32', 2 ** 32 - 1)):
+        out.append({'name': 'bin-integer-frame-%s' % dt, 'kind': 'bin_int', 'shape': [2, 4], 'factor': 2, 'dtype': dt, 'hi': hi})
     for cfa in ('rggb', 'bggr'):
         for shp in ([(2, 2), (2, 4), (4, 4), (4, 6)] if q else [(2, 2), (2, 4), (4, 2), (4, 4), (4, 6), (6, 6)]):
             out.append({'name': 'bayer-%s-%dx%d' % (cfa, shp[0], shp[1]), 'kind': 'bayer', 'cfa': cfa, 'shape': list(shp)})
@@ -66,6 +69,9 @@ def params(cfg):
         if cfg.get('nu'):
             ps += [('dcnu0', {'pos': True}), ('dcnu1', {'pos': True})]
         return ps
+    if k == 'bin_int':
+        m, n = cfg['shape']
+        return [('a_%d_%d' % (i, j), {'lo': 0, 'hi': cfg['hi']}) for i in range(m) for j in range(n)]
     if k == 'wb':
         return [('m_%d_%d' % (i, j), {'nonneg': True}) for i in range(2) for j in range(2)] + \
             [('wr', {'pos': True}), ('wg1', {'pos': True}), ('wg2', {'pos': True}), ('wb', {'pos': True}), ('sat', {'pos': True})]
@@ -156,6 +162,28 @@ def run(cfg, H):
         H.eq('avg-scaled tiling repeats the level', det.bindown(ta, facarg, mode='avg'), b)
         H.eq('bindown(sum) is the adjoint of tile(avg)', np.sum(bs * b), np.sum(a * ta))
         H.eq('bindown(avg) is the adjoint of tile(sum)', np.sum(ba * b), np.sum(a * ts))
+    elif k == 'bin_int':
+        det = H.mod('prysm.detector')
+        H.enable_dtype_model()
+        shp = tuple(cfg['shape'])
+        fac = cfg['factor']
+        raw = H.asarray([[H.param('a_%d_%d' % (i, j)) for j in range(shp[1])] for i in range(shp[0])])
+        a = np.asarray(raw).astype(getattr(np, cfg['dtype']))
+        bs = det.bindown(a, fac, mode='sum')
+        ba = det.bindown(a, fac, mode='avg')
+        oshp = tuple(s_ // fac for s_ in shp)
+        H.shape_is('bindown shape', bs, oshp)
+        tot = 0
+        for idx in np.ndindex(*shp):
+            tot = tot + a[idx] * H.frac(1)        # leaves the integer container (numpy scalars keep it)
+        stot = 0
+        for idx in np.ndindex(*oshp):
+            stot = stot + bs[idx] * H.frac(1)
+        H.eq('sum-mode binning of an integer frame conserves the total', stot, tot)
+        mtot = 0
+        for idx in np.ndindex(*oshp):
+            mtot = mtot + ba[idx] * H.frac(1)
+        H.eq('avg-mode binning of an integer frame preserves the mean', mtot * H.frac(1, ba.size), tot * H.frac(1, a.size))
     elif k == 'bayer':
         by = H.mod('prysm.bayer')
         shp = tuple(cfg['shape'])
